@@ -26,11 +26,13 @@ type Scope struct {
 	Pkg    *ssa.Package
 	Iter   map[int]string // loop ordinal -> number of completed iterations (range loops)
 	At     map[int]map[string]Val // loop ordinal -> header phi values by source name
+	IsOld  bool                   // evaluating inside old(...)
 }
 
 func (sc *Scope) with(st *State) *Scope {
 	n := *sc
 	n.St = st
+	n.IsOld = true
 	return &n
 }
 
@@ -414,6 +416,12 @@ func (ex *Exec) specCall(sc *Scope, e *ast.CallExpr) Val {
 			return Bool{ex.Mem(s, r)}
 		}
 		return Bool{ex.Mem(s, term(x))}
+	case "firstidx":
+		sl, ok := arg(0).(Slice)
+		if !ok {
+			specErr(e, "firstidx: first argument must be a slice")
+		}
+		return Int{ex.FirstIdx(sl, term(arg(1)))}
 	case "has":
 		m, ok := arg(0).(Map)
 		if !ok {
@@ -508,9 +516,38 @@ func (ex *Exec) specCall(sc *Scope, e *ast.CallExpr) Val {
 			return Bool{smt.App(f, terms...)}
 		}
 		return Str{smt.App(f, terms...)}
+	case "fresh":
+		// the object did not exist when the function under verification was entered
+		av := arg(0)
+		if r, ok := ex.refOf(sc.St, av); ok {
+			if ex.entryOld == nil {
+				specErr(e, "fresh() used outside a post-condition or invariant of the verified function")
+			}
+			return Bool{smt.And(smt.Neq(r, NilRef), smt.Not(smt.Sel(ex.allocOf(ex.entryOld), r)))}
+		}
+		if p, isP := av.(Ptr); isP && p.Obj != nil {
+			return Bool{smt.True}
+		}
+		if i, isI := av.(Iface); isI && i.Dyn != nil {
+			if p, isP := i.V.(Ptr); isP && p.Obj != nil {
+				return Bool{smt.True}
+			}
+		}
+		specErr(e, "fresh: argument is not a reference")
 	case "allocated":
-		r, ok := ex.refOf(sc.St, arg(0))
+		av := arg(0)
+		r, ok := ex.refOf(sc.St, av)
 		if !ok {
+			// an object created by the function and not (yet) stored in the symbolic heap: it
+			// exists now and did not exist at entry
+			if p, isP := av.(Ptr); isP && p.Obj != nil {
+				return Bool{smt.Bool(!sc.IsOld)}
+			}
+			if i, isI := av.(Iface); isI && i.Dyn != nil {
+				if p, isP := i.V.(Ptr); isP && p.Obj != nil {
+					return Bool{smt.Bool(!sc.IsOld)}
+				}
+			}
 			specErr(e, "allocated: argument is not a reference")
 		}
 		return Bool{smt.Sel(ex.allocOf(sc.St), r)}
@@ -811,4 +848,22 @@ func (ex *Exec) lookupMethod(t types.Type, pkg *types.Package, name string) *ssa
 		}
 	}
 	return nil
+}
+
+// FirstIdx is the index of the first occurrence of x in the slice (defined when mem(s, x)).
+func (ex *Exec) FirstIdx(s Slice, x string) string {
+	es := mustSort(s.Elem)
+	f := "firstidx_" + es
+	if !ex.Ctx.Has(f) {
+		as := "(Array Int " + es + ")"
+		ex.Ctx.Declare(f, []string{as, "Int", es}, "Int")
+		ex.Ctx.Define(f, "")
+		m := ex.Mem(s, x)
+		_ = m
+		ex.Ctx.AddAxiom("(forall ((a " + as + ") (n Int) (x " + es + ")) (! (=> (mem_" + es + " a n x) (and (<= 0 (" + f + " a n x)) (< (" + f + " a n x) n) (= (select a (" + f + " a n x)) x))) :pattern ((" + f + " a n x))))")
+		ex.Ctx.AddAxiom("(forall ((a " + as + ") (n Int) (x " + es + ") (k Int)) (! (=> (and (mem_" + es + " a n x) (<= 0 k) (< k (" + f + " a n x))) (not (= (select a k) x))) :pattern ((" + f + " a n x) (select a k))))")
+		// the first occurrence is at k when a[k] = x and x is not in a[:k]
+		ex.Ctx.AddAxiom("(forall ((a " + as + ") (n Int) (x " + es + ") (k Int)) (! (=> (and (<= 0 k) (< k n) (= (select a k) x) (not (mem_" + es + " a k x))) (= (" + f + " a n x) k)) :pattern ((" + f + " a n x) (mem_" + es + " a k x))))")
+	}
+	return smt.App(f, s.Arr, s.Len, x)
 }
